@@ -86,15 +86,23 @@ int main(void) {
 '''
 
 
-def run(repo_copy, workdir, cases, cc="gcc", copts=("-O1",), w2c2_exe=None, tag="k"):
-    """-> (list of returned bit patterns (function, then via global) per case, emitted C text)"""
-    w2c2_exe = w2c2_exe or opmods.build_w2c2(repo_copy, workdir)
+def translate(workdir, cases, w2c2_exe, tag="k", env=None):
+    """Run the real w2c2 on the constants module, optionally under a COMPLETE replacement environment `env`
+    (locale / TZ experiments).  -> (directory, emitted C text, header text)"""
     d = os.path.join(workdir, "const_" + tag)
     os.makedirs(d, exist_ok=True)
     open(os.path.join(d, "k.wasm"), "wb").write(build_module(cases))
-    p = subprocess.run([w2c2_exe, "k.wasm", "k.c"], cwd=d, stdout=subprocess.PIPE, stderr=subprocess.PIPE, text=True, timeout=300)
+    p = subprocess.run([w2c2_exe, "k.wasm", "k.c"], cwd=d, stdout=subprocess.PIPE, stderr=subprocess.PIPE, text=True, timeout=300, env=env)
     if p.returncode != 0:
         raise RuntimeError("w2c2 failed on the constants module: " + p.stderr[-500:])
+    return d, open(os.path.join(d, "k.c")).read(), open(os.path.join(d, "k.h")).read()
+
+
+def run(repo_copy, workdir, cases, cc="gcc", copts=("-O1",), w2c2_exe=None, tag="k", env=None):
+    """-> (list of returned bit patterns (function, then via global) per case, emitted C text).  `env`: environment of the
+    TRANSLATOR run only (the compiler and the compiled program run in the check's own environment)."""
+    w2c2_exe = w2c2_exe or opmods.build_w2c2(repo_copy, workdir)
+    d, _, _ = translate(workdir, cases, w2c2_exe, tag, env)
     n = len(cases)
     calls = []
     for k in range(2 * n):
